@@ -635,6 +635,8 @@ class Exec(Engine):
                 v = SMap.empty(hint[1], hint[2])
             elif hint and isinstance(v, STup) and not v.items and hint[0] == "zip":
                 v = SZip.empty(hint[1])
+            elif hint and isinstance(v, STup) and not v.items and hint[0] == "list":
+                v = SSeq(fresh("empty", z3.ArraySort(I, sort_of(hint[1]))), 0, hint[1], "list")
             p.bind(target.id, v)
         elif isinstance(target, (ast.Tuple, ast.List)):
             if any(isinstance(t, ast.Starred) for t in target.elts):
